@@ -46,6 +46,26 @@ def guarded(fn, prop, case, res):
             raise
 
 
+class AlarmTimeout(Exception):
+    pass
+
+
+def with_alarm(seconds, fn, *a, **kw):
+    """run fn under a SIGALRM watchdog (shards are single-threaded); raises AlarmTimeout"""
+    import signal
+
+    def _h(signum, frame):
+        raise AlarmTimeout()
+
+    old = signal.signal(signal.SIGALRM, _h)
+    signal.alarm(seconds)
+    try:
+        return fn(*a, **kw)
+    finally:
+        signal.alarm(0)
+        signal.signal(signal.SIGALRM, old)
+
+
 def h64(obj):
     """stable 64-bit hash of a JSON-serialisable object"""
     s = json.dumps(obj, sort_keys=True, separators=(",", ":"), default=str)
